@@ -15,6 +15,7 @@ Chars(n) == CASE n = "A" -> <<"A">>
               [] n = "ID" -> <<"I","D">>
               [] n = "URL" -> <<"U","R","L">>
               [] n = "HTTP2" -> <<"H","T","T","P","2">>
+              [] n = "UserId" -> <<"U","s","e","r","I","d">>
               [] n = "Other" -> <<"O","t","h","e","r">>
               [] n = "Last" -> <<"L","a","s","t">>
               [] n = "Rec" -> <<"R","e","c">>
